@@ -69,7 +69,8 @@ def prepare_stack(work, plan):
     dirs = []
     ch = 0
     for k in range(plan["dirs"]):
-        p = os.path.join(d, "in%d" % k)
+        # directory names whose lexicographic order is NOT the order on the command line
+        p = os.path.join(d, ["red", "green", "blue", "alpha"][k] if plan["dirs"] > 1 and k < 4 else "in%d" % k)
         ch += write_stack(p, plan["insize"], ch, plan["rgb"], np.dtype(plan["pixel"]), plan["ext"],
                           plan.get("blank"), mixpix=bool(plan.get("mixpix")),
                           drop_last=bool(plan.get("short")) and k == plan["dirs"] - 1)
